@@ -266,7 +266,6 @@ func ruleC17_12(c *Ctx) {
 	}
 }
 
-
 // R-C15-8 -------------------------------------------------------------------------------------------------------------
 
 func ruleC15_8(c *Ctx) {
